@@ -10,9 +10,10 @@ PROPS="${*:-C01 C02 C03 C04 C05 C06 C07 C08 C09 C10 C11 C12 C13 C14 C15 C16 C17 
 TAG=$(echo "$SRC" | tr '/' '_')
 W=/tmp/seedeval/$TAG
 mkdir -p "$W/harness" "$W/out"
-rsync -a --delete --exclude target /verif/harness/ "$W/harness/"
+SNAP="${VERIF_SNAPSHOT:-/verif}"
+rsync -a --delete --exclude target "$SNAP/harness/" "$W/harness/"
 sed -i "s#path = \"/repo\"#path = \"$SRC\"#" "$W/harness/Cargo.toml"
-export CARGO_TARGET_DIR=/tmp/seedeval/target CARGO_NET_OFFLINE=true SEMVER_MC_OUT="$W/out"
+export CARGO_TARGET_DIR=/tmp/seedeval/target CARGO_NET_OFFLINE=true SEMVER_MC_OUT="$W/out" SEMVER_MC_HOME="$SNAP"
 TIER="${SEED_TIER:-quick}"
 cd "$W/harness" || exit 2
 # the target dir is shared between invocations: build and take a private copy of the binary under a lock
